@@ -415,6 +415,15 @@ def expected(spec, with_links=True):
     remove_atoms(model)
     if model.invalid:
         return model
+    if spec.get("explicit"):
+        if model.removed:
+            model.invalid = "explicit (by_atom_id) links together with atom removal: numbering not defined"
+            return model
+        for it in spec["explicit"]:
+            # added on exactly the numbered atoms, with an edge between consecutive atoms
+            model.extra_inter.append((it["sec"], tuple(it["atoms"]), list(it["params"]), None))
+            for a, b in zip(it["atoms"][:-1], it["atoms"][1:]):
+                model.edges.add(frozenset((a, b)))
     apply_mods(spec, model)
     return model
 
@@ -450,7 +459,7 @@ def apply_mods(spec, model):
     """Terminal / requested modifications: only the named atoms of the target residue change;
     the modification's interactions are added on those atoms."""
     model.mods_applied = 0
-    model.extra_inter = []
+    model.extra_inter = list(getattr(model, "extra_inter", []))
     mods = {m["name"]: m for m in spec.get("mods", [])}
     if not mods:
         return
